@@ -385,6 +385,17 @@ Theorem C06_wait_sound : forall t0 nst evs,
 Proof. exact rt_wait_sound. Qed.
 Print Assumptions C06_wait_sound.
 
+(* a Confirmable accepted at the start of a prepare call (an Observe notification generated by
+   coap_check_notify inside coap_io_prepare_io) is covered by the wait that very call reports *)
+Theorem C06_wait_after_accept : forall st s m b cfg r,
+  rt_tinv st -> 1 <= rc_max cfg <= 255 ->
+  let st1 := fst (rt_send st s m b cfg r) in
+  let (st', o) := rt_tick st1 in
+  exists o' w hd, o = o' ++ [RoWait (rs_now st1) w hd] /\ ~ In RoFuel o' /\
+                  rs_now st' = rs_now st1 /\ rt_wait_ok st' w hd.
+Proof. exact rt_wait_after_accept. Qed.
+Print Assumptions C06_wait_after_accept.
+
 (* coap_io_process (the library's own loop, epoll build, no datagram arriving): fires what is
    due, sleeps never longer than the reported wait - hence never past the earliest pending
    deadline - and "for ever" only when nothing is pending and the caller allowed it; afterwards
